@@ -275,34 +275,53 @@ class ExprMixin:
         if not isinstance(src.t, TList):
             raise OutOfSubset('comprehension over %s' % src.t, node)
         n = list_len(src)
-        hook = getattr(self, 'listcomp_hook', None)
-        # try a precise per-index encoding: evaluate element at symbolic index i
+        # evaluate the element (and filters) at a symbolic index i
         i = z3.Int(fresh_name('lc'))
-        s_el = st.fork()
-        s_el.assume(z3.And(0 <= i, i < n))
-        if not isinstance(gen.target, ast.Name):
-            raise OutOfSubset('comprehension target', node)
-        s_el.env[gen.target.id] = Val(src.t.elem, z3.Select(list_arr(src), i))
-        try:
-            results = list(self.ev_pure_single(node.elt, s_el))
-            conds = [list(self.ev_pure_single(c, s_el)) for c in gen.ifs]
-        except OutOfSubset:
-            results = None
-        if results is not None and len(results) == 1 and all(len(c) == 1 for c in conds) \
-                and len(s_el.pc) == len(st.pc) + 1 and s_el.heap == st.heap and s_el.glob.keys() == st.glob.keys():
-            elv = results[0]
-            rt = TList(elv.t)
-            if not gen.ifs:
-                arr = z3.Lambda([i], elv.e)
-                yield st, mk_list(rt, n, arr)
-                return
-            # filtered: fresh list, elements satisfy the filter and come from the source
-            r = fresh(rt, 'filtered')
-            st.assume(z3.And(list_len(r) >= 0, list_len(r) <= n))
-            yield st, r
+        probe = st.fork()
+        probe.assume(z3.And(0 <= i, i < n))
+        self.bind_comp_target(gen.target, Val(src.t.elem, z3.Select(list_arr(src), i)), probe, line)
+        states = [probe]
+        for c in gen.ifs:
+            nxt = []
+            for s in states:
+                for s2, v in self.ev(c, s):
+                    if isinstance(v, Exc):
+                        raise OutOfSubset('comprehension filter may raise', node)
+                    nxt.append(s2)
+            states = nxt
+        results = []
+        for s in states:
+            for s2, v in self.ev(node.elt, s):
+                if isinstance(v, Exc):
+                    raise OutOfSubset('comprehension element may raise', node)
+                if s2.heap != st.heap or any(s2.glob.get(k) is not st.glob.get(k) for k in st.glob):
+                    raise OutOfSubset('comprehension element has effects', node)
+                results.append((s2, v))
+        if not results:
+            yield st, self.list_literal([])
             return
-        # fallback: opaque list of unknown element values; element type from a probe evaluation
-        raise OutOfSubset('comprehension element not pure', node)
+        t0 = results[0][1].t
+        if any(v.t != t0 for _, v in results):
+            raise OutOfSubset('comprehension element types differ', node)
+        if isinstance(t0, TObj):
+            raise OutOfSubset('comprehension of non-encodable elements', node)
+        rt = TList(t0)
+        if not gen.ifs and len(results) == 1 and results[0][0] is probe and len(probe.pc) == len(st.pc) + 1:
+            yield st, mk_list(rt, n, z3.Lambda([i], results[0][1].e))
+            return
+        r = self.fresh_val(st, rt, 'comp')
+        if gen.ifs:
+            st.assume(list_len(r) <= n)
+        else:
+            st.assume(list_len(r) == n)
+        yield st, r
+
+    def bind_comp_target(self, target, v, st, line):
+        if isinstance(target, ast.Name):
+            st.env[target.id] = v
+        else:
+            for s in self.assign(target, v, st, line):
+                pass
 
     def ev_pure_single(self, node, st):
         """Evaluate expecting no fork and no exception; raises OutOfSubset otherwise."""
